@@ -17,3 +17,10 @@ pub use authentication::{
   authentication_builtin::AuthenticationBuiltin, authentication_plugin::Authentication,
 };
 pub use cryptographic::{cryptographic_builtin::CryptographicBuiltin, Cryptographic};
+
+// Verification hook: sign arbitrary bytes with a PEM private key (the `private_key` module is
+// private to `security`); used by the C19 driver to build forged handshake messages.
+#[cfg(rustdds_verif)]
+pub(crate) fn verif_sign_with_pem_key(key_pem: &[u8], data: &[u8]) -> SecurityResult<bytes::Bytes> {
+  private_key::PrivateKey::from_pem(key_pem)?.sign(data)
+}
